@@ -25,13 +25,22 @@ def main():
     evbak = tempfile.mkdtemp(prefix="verif-evbak-")
     shutil.copytree(ROOT / "evidence", evbak + "/evidence")
     env = dict(os.environ)
+    made_copy = None
     try:
         if apply_:
             assert sh("git -C /repo status --porcelain --untracked-files=no").stdout.strip() == "", "/repo not clean"
             r = sh(f"git -C /repo apply {d / 'patch.diff'}")
             assert r.returncode == 0, r.stderr
         else:
-            env["VERIF_REPO"] = meta["worktree"]
+            wt = meta.get("worktree")
+            if not wt or not os.path.isdir(wt):
+                # no scratch worktree (they are removed at the end of a session): build a scratch copy of black_it with the patch applied
+                wt = tempfile.mkdtemp(prefix="verif-seedcopy-")
+                made_copy = wt
+                shutil.copytree("/repo/black_it", wt + "/black_it")
+                r = sh(f"cd {wt} && patch -p1 -s < {d / 'patch.diff'}")
+                assert r.returncode == 0, r.stdout + r.stderr
+            env["VERIF_REPO"] = wt
         out = {}
         for c in checks:
             r = subprocess.run(f"cd /verif && timeout 900 ./check {c} --tier {tier}", shell=True, capture_output=True, text=True, env=env)
@@ -48,6 +57,8 @@ def main():
     finally:
         if apply_:
             sh("git -C /repo checkout -- .")
+        if made_copy:
+            shutil.rmtree(made_copy, ignore_errors=True)
         shutil.rmtree(ROOT / "evidence", ignore_errors=True)
         shutil.copytree(evbak + "/evidence", ROOT / "evidence")
         shutil.rmtree(evbak, ignore_errors=True)
